@@ -39,6 +39,8 @@ ASSUMPTIONS = [
     "its input sequence is that of { P BIND(e AS ?v) } (SPARQL 18.2.4.1)",
     "promotion suite: float/double VALUES are compared as exact rationals of the Python floats with tolerance 1e-6 "
     "relative to 1 + sum |v|; only the datatype of SUM/AVG is a proved statement there",
+    "GROUP BY over an empty solution sequence: both no row and one row with nothing bound are accepted (algebra text vs "
+    "W3C test agg-empty-group)",
     "the order of GROUP_CONCAT, the member returned by SAMPLE and the choice among tied MIN/MAX values are "
     "left open by the specification checker",
 ]
